@@ -42,7 +42,10 @@ META_FORMS = [
 ]
 WRAPS = ["%s", "%s", "%s", "<!--%s-->", "<!-->%s", "<!--->%s-->", "<title>%s</title>", "<textarea>%s</textarea>", "<script>%s</script>", "<style>%s</style>", "<a b='%s'>", '<a "%s">',
          "</head>%s", "<body>%s", "<p>%s", "<svg>%s</svg>", "<table>%s", "<!%s>", "</%s>", "<?%s?>", "<head>%s</head>", "<noscript>%s</noscript>", "<select>%s", "<template>%s</template>",
-         "<a\n%s", "< %s", "<a b=%s>", "<html>%s"]
+         "<a\n%s", "< %s", "<a b=%s>", "<html>%s",
+         # a declaration met by the tree constructor in the middle of table / select / formatting structure (a restart must begin from a clean tree builder)
+         "<table><tr><td>x</td></tr>%s<tr><td>y", "<table> <tbody>%s<tr><td>z", "<table><tr>%s<td>w", "<table><caption>c</caption>%s", "<select><option>o%s", "<p><b><i>t%s u",
+         "<table><tbody><tr><td>a</td></tr>%s</tbody></table>\r", "%s\r", "<pre>%s\r", "%s x\r"]
 JUNK = [b"", b"x", b"\xe9", b"\xc3\xa9", b"\xff", b"\x80\x9f", b"\xa4", b"<p>", b"text ", b"\n", b"<!DOCTYPE html>", b"<html>", b"<head>", b"\x00", b"&eacute;", b"\xe4\xb8\xad", b"\x82\xa0",
         b"<b>bold</b>", b"</html>", b"\x1b$B", b"+AGE-"]
 BOMS = [b"\xef\xbb\xbf", b"\xff\xfe", b"\xfe\xff", b"\xef\xbb", b"\xff\xfe\x00\x00", b"\x00\x00\xfe\xff"]
@@ -101,7 +104,7 @@ class _NonSeekable(object):
 _LAST = {"template": False}
 
 
-def predict(data, args, prescan=None):
+def predict(data, args, prescan=None, fragment=False):
     """Reference prediction -> (encoding name, how)"""
     enc, conf, src = P.pre_parse_encoding(data, args, prescan)
     if conf == "certain":
@@ -110,7 +113,7 @@ def predict(data, args, prescan=None):
     body = data
     text = _decode(body, enc)
     try:
-        res = T.parse_document(text)
+        res = T.parse_fragment(text, context="div") if fragment else T.parse_document(text)
     except Exception:
         return enc, src
     _LAST["template"] = "template" in res.trace
@@ -142,7 +145,9 @@ def check_case(case):
     import webencodings
     data, args, kind = case["data"], dict(case.get("args") or {}), case.get("kind", "bytes")
     _LAST["template"] = False
-    want_enc, how = predict(data, args)
+    fragment = case.get("entry") == "fragment"
+    _LAST["fragment"] = fragment
+    want_enc, how = predict(data, args, fragment=fragment)
     template_involved = _LAST["template"]
     pre_enc, conf, src = P.pre_parse_encoding(data, args)
     sources = [k for k in args if P.lookup(args[k])]
@@ -151,16 +156,16 @@ def check_case(case):
     near = any(984 <= i <= 1064 for i in _find_all(data.lower(), b"<meta"))
     nontrivial = (len(sources) + has_bom + (1 if n_meta else 0)) >= 2 or near or bool(case.get("placement"))
     sig = sig64(tuple(sorted(sources)), has_bom, how, want_enc, near, tuple(sorted(case.get("placement") or [])))
-    classes = ["decided-by:" + how.split("(")[0]] + ["near-1024"] * near + ["kind:" + kind]
+    classes = ["decided-by:" + how.split("(")[0]] + ["near-1024"] * near + ["kind:" + kind, "entry:" + ("fragment" if fragment else "document")]
     source = data if kind == "bytes" else (io.BytesIO(data) if kind == "bytesio" else _NonSeekable(data))
     p = h5.parser("etree", True, full_tree=True)
     try:
-        tree = p.parse(source, **args)
+        tree = p.parseFragment(source, container="div", **args) if fragment else p.parse(source, **args)
     except Exception as e:
         return Verdict("fail", "%s: %s with args %s on %s" % (type(e).__name__, short(str(e), 100), args, short(data, 200)), "exception:" + type(e).__name__, nontrivial=nontrivial, classes=classes)
     got = p.documentEncoding
     got_name = P.lookup(got) if isinstance(got, str) else (got.name if got is not None else None)
-    cfg = "args=%s kind=%s data=%s" % (args, kind, short(data, 260))
+    cfg = "args=%s kind=%s entry=%s data=%s" % (args, kind, "parseFragment(div)" if fragment else "parse", short(data, 260))
     # (3) certain sources are never overridden by content
     if conf == "certain" and got_name != pre_enc:
         return Verdict("fail", "a certain encoding (%s from %s) was changed to %s; %s" % (pre_enc, src, got_name, cfg), "certain-changed:" + src, nontrivial=nontrivial, classes=classes)
@@ -169,7 +174,7 @@ def check_case(case):
         return Verdict("fail", "documentEncoding is %r; %s" % (got, cfg), "no-encoding", nontrivial=nontrivial, classes=classes)
     try:
         text = _decode(data, got_name)
-        ref_tree, _ = h5.parse(text, builder="etree", full_tree=True)
+        ref_tree, _ = h5.parse(text, builder="etree", full_tree=True, container="div" if fragment else None)
     except Exception as e:
         return Verdict("excluded", finding="reference str parse raised %s" % type(e).__name__)
     if obs.flat(tree) != obs.flat(ref_tree) and active("C06-truncated-sequence-at-eof"):
@@ -184,7 +189,7 @@ def check_case(case):
         except Exception:
             text2 = None
         if text2 is not None and text2 != text:
-            t2, _ = h5.parse(text2, builder="etree", full_tree=True)
+            t2, _ = h5.parse(text2, builder="etree", full_tree=True, container="div" if fragment else None)
             if obs.flat(tree) == obs.flat(t2):
                 return Verdict("known", finding="C06-truncated-sequence-at-eof", nontrivial=nontrivial, sig=sig, classes=classes)
     if obs.flat(tree) != obs.flat(ref_tree):
@@ -192,6 +197,10 @@ def check_case(case):
         return Verdict("fail", "tree is not the tree of the bytes decoded as %s: record %d: expected %s, got %s; %s" % (got_name, d[0], short(d[1], 120), short(d[2], 120), cfg),
                        "tree-vs-reported-encoding", nontrivial=nontrivial, classes=classes)
     # (1) the reported encoding is the one the documented precedence selects
+    if fragment and conf != "certain":
+        # the standard gives fragment parsers no encoding step of their own (confidence "irrelevant"): for a tentative encoding
+        # only oracles (2) and (3) apply - whichever encoding is reported, the tree must be the tree of the bytes decoded with it
+        return Verdict("pass", nontrivial=nontrivial, sig=sig, classes=classes + ["fragment-tentative"])
     if got_name != want_enc and template_involved:
         # the late-meta model ran template machinery, which html5lib does not have at all (recorded as C01-template)
         return Verdict("excluded", finding="template in the late-meta path (C01-template)")
@@ -199,7 +208,7 @@ def check_case(case):
         fid = _known_encoding_difference(data, args, got_name, want_enc, how)
         if fid:
             return Verdict("known", finding=fid, nontrivial=nontrivial, sig=sig, classes=classes)
-        if active("C06-prescan-variant") and predict(data, args, prescan=P.prescan_h5l)[0] != want_enc:
+        if active("C06-prescan-variant") and predict(data, args, prescan=P.prescan_h5l, fragment=fragment)[0] != want_enc:
             # the recorded prescan variant is triggered (its model disagrees with the standard here) but does not reproduce html5lib's answer
             return Verdict("masked", "prescan variant triggered, model differs: got %s, standard %s; %s" % (got_name, want_enc, cfg), finding="masked:C06-prescan-variant",
                            nontrivial=nontrivial, sig=sig, classes=classes)
@@ -225,7 +234,7 @@ def _known_encoding_difference(data, args, got, want, how):
 
 def _is_prescan_variant(data, args, got, want, how):
     """html5lib's prescan variant (vf.ref.prescan.prescan_h5l) predicts html5lib's answer, the standard's prescan does not."""
-    return predict(data, args, prescan=P.prescan_h5l)[0] == got
+    return predict(data, args, prescan=P.prescan_h5l, fragment=_LAST.get("fragment", False))[0] == got
 
 
 KNOWN_CLASSIFIERS = [("C06-prescan-variant", _is_prescan_variant)]
@@ -240,8 +249,9 @@ def run_shard(desc, seed, tier):
     acc = Acc()
 
     def fn(b):
-        data, args, kind, placement = decode_case(b)
-        case = {"data": data, "args": args, "kind": kind, "placement": sorted(placement)}
-        acc.add(case, check_case(case), sample={"data": short(data, 200), "args": args, "kind": kind})
+        data, args, kind, placement = decode_case(b[1:])
+        entry = "fragment" if b[:1] and b[0] % 4 == 0 else "document"
+        case = {"data": data, "args": args, "kind": kind, "placement": sorted(placement), "entry": entry}
+        acc.add(case, check_case(case), sample={"data": short(data, 200), "args": args, "kind": kind, "entry": entry})
     drive(sized_binary(8, 80), fn, desc["n"], seed)
     return acc
